@@ -49,6 +49,14 @@ type VerifDKGResult struct {
 // aggregateKeys for every member, delivering dealer shares in the given order
 // (order[i] lists dealer indexes as received by member i; nil = natural order).
 func VerifDKG(members []*model.SelfMinerInfo, groupHash common.Hash, order [][]int) *VerifDKGResult {
+	return VerifDKGWithRebuild(members, groupHash, order, nil)
+}
+
+// VerifDKGWithRebuild is VerifDKG where dealer j's group-init context is built
+// anew (NewGroupNodeInfo + genSharePiece, as after a restart or a cache
+// eviction in the middle of the key exchange) before it serves the members
+// with index >= rebuildBefore[j]; nil or an index outside 1..n-1 = no rebuild.
+func VerifDKGWithRebuild(members []*model.SelfMinerInfo, groupHash common.Hash, order [][]int, rebuildBefore []int) *VerifDKGResult {
 	verifInitLoggers()
 	n := len(members)
 	res := &VerifDKGResult{}
@@ -62,6 +70,19 @@ func VerifDKG(members []*model.SelfMinerInfo, groupHash common.Hash, order [][]i
 	for i, m := range members {
 		nodes[i] = NewGroupNodeInfo(m, groupHash, n)
 		pieces[i] = nodes[i].genSharePiece(ids)
+		if rebuildBefore != nil && rebuildBefore[i] >= 1 && rebuildBefore[i] < n {
+			served := pieces[i]
+			again := NewGroupNodeInfo(m, groupHash, n).genSharePiece(ids)
+			pieces[i] = make(map[string]groupsig.Seckey, n)
+			for r := 0; r < n; r++ {
+				key := ids[r].GetHexString()
+				if r < rebuildBefore[i] {
+					pieces[i][key] = served[key]
+				} else {
+					pieces[i][key] = again[key]
+				}
+			}
+		}
 		res.SeedSKs = append(res.SeedSKs, nodes[i].genSeedSecKey())
 		res.SeedPKs = append(res.SeedPKs, nodes[i].getSeedPubKey())
 	}
